@@ -8,6 +8,7 @@ package main
 // faults (down, erroring, slow) and a device the plan can make approve or deny.
 
 import (
+	"net/url"
 	"bytes"
 	"encoding/json"
 	"errors"
@@ -53,6 +54,9 @@ func (o *simOkta) reply(req *http.Request, code int, v any) *http.Response {
 
 func (o *simOkta) RoundTrip(req *http.Request) (*http.Response, error) {
 	w := o.w
+	if req.URL.Host == "idp.sim" && w.idp != nil {
+		return w.idp.roundTrip(req)
+	}
 	if !strings.HasSuffix(req.URL.Host, ".okta.com") {
 		return nil, errors.New("sim: no route to host " + req.URL.Host)
 	}
@@ -242,6 +246,147 @@ func init() {
 		p.env = func() {
 			if w.okta != nil {
 				w.okta.Mode = st.A
+			}
+		}
+		return p
+	}
+}
+
+// ---- federated login: a simulated OAuth2 identity provider ---------------------------------------
+// (token and userinfo endpoints reached by golang.org/x/oauth2 through http.DefaultClient)
+
+type simIdP struct {
+	w      *vfWorld
+	Mode   string            // up | down | error
+	Codes  map[string]string // authorization code -> user who authenticated at the provider (one-time)
+	Tokens map[string]string // access token -> user
+	seq    int
+	Style  string // what the userinfo document carries: login | email
+}
+
+func newSimIdP(w *vfWorld) *simIdP {
+	return &simIdP{w: w, Mode: "up", Codes: map[string]string{}, Tokens: map[string]string{}, Style: "login"}
+}
+
+func (i *simIdP) roundTrip(req *http.Request) (*http.Response, error) {
+	w := i.w
+	w.sched.park("idp:" + req.URL.Path)
+	o := w.okta
+	switch i.Mode {
+	case "down":
+		w.fault("idp.down")
+		time.Sleep(3 * time.Second)
+		return nil, errors.New("sim: dial tcp: i/o timeout")
+	case "error":
+		w.fault("idp.error")
+		return o.reply(req, 500, map[string]string{"error": "server_error"}), nil
+	}
+	ctx := w.reqCtx()
+	switch req.URL.Path {
+	case "/token":
+		body, _ := io.ReadAll(req.Body)
+		form, _ := url.ParseQuery(string(body))
+		id, secret, hasBasic := req.BasicAuth()
+		if !hasBasic {
+			id, secret = form.Get("client_id"), form.Get("client_secret")
+		}
+		if uid, _ := url.QueryUnescape(id); uid != "km-client" || secret != "km-client-secret" {
+			return o.reply(req, 401, map[string]string{"error": "invalid_client"}), nil
+		}
+		user, ok := i.Codes[form.Get("code")]
+		if !ok || form.Get("grant_type") != "authorization_code" {
+			return o.reply(req, 400, map[string]string{"error": "invalid_grant"}), nil
+		}
+		delete(i.Codes, form.Get("code")) // codes are one-time
+		i.seq++
+		tok := fmt.Sprintf("idp-at-%d", i.seq)
+		i.Tokens[tok] = user
+		return o.reply(req, 200, map[string]any{"access_token": tok, "token_type": "Bearer", "expires_in": 3600}), nil
+	case "/userinfo":
+		tok := strings.TrimPrefix(req.Header.Get("Authorization"), "Bearer ")
+		user, ok := i.Tokens[tok]
+		if !ok {
+			return o.reply(req, 401, map[string]string{"error": "invalid_token"}), nil
+		}
+		if ctx != nil {
+			ctx.truth = append(ctx.truth, vfClaim{Factor: AuthTypeFederated, User: user})
+		}
+		w.probe("idp-userinfo-served")
+		if i.Style == "email" {
+			return o.reply(req, 200, map[string]any{"name": "Display " + user, "email": strings.ToUpper(user[:1]) + user[1:] + "@mail.sim"}), nil
+		}
+		return o.reply(req, 200, map[string]any{"name": "Display " + user, "login": user, "email": user + "@mail.sim"}), nil
+	}
+	return o.reply(req, 404, nil), nil
+}
+
+func init() {
+	// the browser is sent to the provider: GET /auth/oauth2/login (the jar keeps the redirect cookie, the session the state)
+	vfExtraOps["fedlogin"] = func(w *vfWorld, st vfStep, p *vfPrepared) *vfPrepared {
+		s := w.session(st.Sess)
+		r := w.baseReq(s, "GET", "/auth/oauth2/login")
+		p.call = w.prepare(r)
+		p.intent.Op = "fedlogin"
+		p.after = func(resp *vfResp) {
+			if resp.Code != 302 {
+				return
+			}
+			if loc, err := url.Parse(resp.Header.Get("Location")); err == nil {
+				s.FedState = loc.Query().Get("state")
+				w.probe("federated-login-started")
+			}
+		}
+		return p
+	}
+	// the user authenticates at the provider, which hands the browser a code.  User: who authenticated there
+	vfExtraOps["idp_auth"] = func(w *vfWorld, st vfStep, p *vfPrepared) *vfPrepared {
+		p.env = func() {
+			if w.idp == nil {
+				return
+			}
+			w.idp.seq++
+			code := fmt.Sprintf("idp-code-%d", w.idp.seq)
+			w.idp.Codes[code] = st.User
+			w.idp.Style = "login"
+			if st.A == "email" {
+				w.idp.Style = "email"
+			}
+			w.session(st.Sess).FedCode = code
+		}
+		return p
+	}
+	// the browser comes back: A: "" | replay (a code already used) | wrongstate | code:<sess> (code handed to another browser) | nocookie
+	vfExtraOps["fedcallback"] = func(w *vfWorld, st vfStep, p *vfPrepared) *vfPrepared {
+		s := w.session(st.Sess)
+		code, state := s.FedCode, s.FedState
+		switch {
+		case st.A == "replay":
+			code = s.FedCodeUsed
+		case st.A == "wrongstate":
+			state = "not-the-state"
+		case strings.HasPrefix(st.A, "code:"):
+			code = w.session(st.A[5:]).FedCode
+		}
+		if code == "" {
+			return nil
+		}
+		r := w.baseReq(s, "GET", "/auth/oauth2/callback?code="+url.QueryEscape(code)+"&state="+url.QueryEscape(state))
+		if st.A == "nocookie" {
+			delete(r.Cookies, "oauth2_redir")
+		}
+		p.call = w.prepare(r)
+		p.intent.Op = "fedcallback"
+		p.after = func(resp *vfResp) {
+			if code == s.FedCode {
+				s.FedCodeUsed, s.FedCode = code, ""
+			}
+		}
+		return p
+	}
+	vfExtraOps["idp_server"] = func(w *vfWorld, st vfStep, p *vfPrepared) *vfPrepared {
+		p.env = func() {
+			if w.idp != nil {
+				w.idp.Mode = st.A
 			}
 		}
 		return p
